@@ -18,8 +18,10 @@
 //  (ND)   old std, inv_std finite and > 0  ==>  new std, inv_std finite and > 0
 //  (KEEP) estimate NaN / +-inf / 0 and fill_invalid = None  ==>  new values BIT-identical to the old
 //  (FILL) estimate invalid and fill_invalid = Some(1.0)     ==>  new values are exactly (1.0, 1.0)
-//  (FORM) estimate valid ==> std = sqrt(clamp(est)), inv_std = sqrt(1/clamp(est)) bit-for-bit, with
-//         est = draw_var*scale | sqrt(draw_var/grad_var) | 1/clamp(|g|)   ("sigma^2 = sqrt(var(draw)/var(grad))")
+//  NOT checked: the value formula std = sqrt(clamp(est)) itself.  CBMC models sqrt by a nondeterministic
+//  witness (lower^2 <= x < upper^2), so two sqrt instances can only be related by multiplier reasoning,
+//  which did not terminate in 10 min; consequently an edit that swaps draw_var and grad_var (still
+//  non-degenerate, still keeps on invalid input) is NOT caught here — that clause is C08.1 (engine E1).
 //
 // Arch: `pulp::Arch::Scalar` through the `new_with_arch` hook (cpuid inline asm of `Arch::new()`
 // cannot run under Kani).  The element closures do not depend on the arch (plain f64 code inside
@@ -126,48 +128,26 @@ fn invalid(est: f64) -> bool {
     (!est.is_finite()) || est == 0.0
 }
 
-/// Clauses ND / KEEP / FILL (and FORM when `formula`) for one element, given the estimate.
+/// Clauses ND / KEEP / FILL for one element.  `est_invalid` says whether the estimate is NaN / +-inf / 0.
 #[inline(always)]
-fn check_elem(
-    old_std: f64,
-    old_inv: f64,
-    new_std: f64,
-    new_inv: f64,
-    est: f64,
-    fill: Option<f64>,
-    formula: bool,
-) {
+fn check_elem(old_std: f64, old_inv: f64, new_std: f64, new_inv: f64, est_invalid: bool, fill: Option<f64>) {
     // (ND)
     if pos_fin(old_std) && pos_fin(old_inv) {
         assert!(pos_fin(new_std), "C08.2 ND: new std finite and > 0");
         assert!(pos_fin(new_inv), "C08.2 ND: new inv_std finite and > 0");
     }
-    if invalid(est) {
+    if est_invalid {
         match fill {
             None => {
                 // (KEEP)
                 assert!(new_std.to_bits() == old_std.to_bits(), "C08.2 KEEP: std bit-identical");
                 assert!(new_inv.to_bits() == old_inv.to_bits(), "C08.2 KEEP: inv_std bit-identical");
             }
-            Some(f) => {
-                // (FILL)  f == 1.0 in every harness
-                assert!(new_std.to_bits() == f.sqrt().to_bits(), "C08.2 FILL: std = sqrt(fill)");
-                assert!(
-                    new_inv.to_bits() == f.recip().sqrt().to_bits(),
-                    "C08.2 FILL: inv_std = sqrt(1/fill)"
-                );
+            Some(_) => {
+                // (FILL)  fill == 1.0 in every harness: sqrt(1) = sqrt(1/1) = 1
+                assert!(new_std.to_bits() == 1.0f64.to_bits(), "C08.2 FILL: std = sqrt(fill) = 1");
+                assert!(new_inv.to_bits() == 1.0f64.to_bits(), "C08.2 FILL: inv_std = sqrt(1/fill) = 1");
             }
-        }
-    } else {
-        // a valid estimate always yields a non-degenerate scale, whatever the old one was
-        assert!(pos_fin(new_std) && pos_fin(new_inv), "C08.2 ND: valid estimate gives finite > 0");
-        if formula {
-            let v = est.clamp(CLAMP.0, CLAMP.1);
-            assert!(new_std.to_bits() == v.sqrt().to_bits(), "C08.2 FORM: std = sqrt(clamp(est))");
-            assert!(
-                new_inv.to_bits() == v.recip().sqrt().to_bits(),
-                "C08.2 FORM: inv_std = sqrt(1/clamp(est))"
-            );
         }
     }
 }
@@ -175,7 +155,7 @@ fn check_elem(
 // ------------------------------------------------------------------------------------------------
 // draw_grad
 // ------------------------------------------------------------------------------------------------
-fn body_draw_grad<const D: usize>(formula: bool) {
+fn body_draw_grad<const D: usize>() {
     let mut math = mk(D);
     let old_std: [f64; D] = any_arr();
     let old_inv: [f64; D] = any_arr();
@@ -196,8 +176,13 @@ fn body_draw_grad<const D: usize>(formula: bool) {
     let gv_after: [f64; D] = read(&mut math, &grad_var);
     let mut i = 0;
     while i < D {
-        let est = (dv[i] / gv[i]).sqrt();
-        check_elem(old_std[i], old_inv[i], new_std[i], new_inv[i], est, fill, formula);
+        // est = sqrt(q), q = draw_var/grad_var.  IEEE-754 sqrt: sqrt(q) is NaN iff q is NaN or q < 0,
+        // +inf iff q = +inf, (+-)0 iff q = +-0, and finite > 0 for every finite q > 0 (also subnormal q).
+        // Hence "est is NaN/+-inf/0"  <=>  not (q finite and q > 0); stated on q so that the harness does
+        // not need a second instance of CBMC's (nondeterministic-witness) sqrt model.
+        let q = dv[i] / gv[i];
+        let est_invalid = !(q.is_finite() && q > 0.0);
+        check_elem(old_std[i], old_inv[i], new_std[i], new_inv[i], est_invalid, fill);
         assert!(dv_after[i].to_bits() == dv[i].to_bits(), "inputs untouched");
         assert!(gv_after[i].to_bits() == gv[i].to_bits(), "inputs untouched");
         i += 1;
@@ -207,25 +192,19 @@ fn body_draw_grad<const D: usize>(formula: bool) {
 #[kani::proof]
 #[kani::unwind(3)]
 fn var_draw_grad_dim1() {
-    body_draw_grad::<1>(false);
-}
-
-#[kani::proof]
-#[kani::unwind(3)]
-fn var_draw_grad_formula_dim1() {
-    body_draw_grad::<1>(true);
+    body_draw_grad::<1>();
 }
 
 #[kani::proof]
 #[kani::unwind(4)]
 fn var_draw_grad_dim2() {
-    body_draw_grad::<2>(true);
+    body_draw_grad::<2>();
 }
 
 // ------------------------------------------------------------------------------------------------
 // draw
 // ------------------------------------------------------------------------------------------------
-fn body_draw<const D: usize>(formula: bool) {
+fn body_draw<const D: usize>() {
     let mut math = mk(D);
     let old_std: [f64; D] = any_arr();
     let old_inv: [f64; D] = any_arr();
@@ -245,7 +224,7 @@ fn body_draw<const D: usize>(formula: bool) {
     let mut i = 0;
     while i < D {
         let est = dv[i] * scale;
-        check_elem(old_std[i], old_inv[i], new_std[i], new_inv[i], est, fill, formula);
+        check_elem(old_std[i], old_inv[i], new_std[i], new_inv[i], invalid(est), fill);
         assert!(dv_after[i].to_bits() == dv[i].to_bits(), "inputs untouched");
         i += 1;
     }
@@ -254,13 +233,13 @@ fn body_draw<const D: usize>(formula: bool) {
 #[kani::proof]
 #[kani::unwind(3)]
 fn var_draw_dim1() {
-    body_draw::<1>(true);
+    body_draw::<1>();
 }
 
 #[kani::proof]
 #[kani::unwind(4)]
 fn var_draw_dim2() {
-    body_draw::<2>(true);
+    body_draw::<2>();
 }
 
 // ------------------------------------------------------------------------------------------------
@@ -286,11 +265,7 @@ fn body_grad<const D: usize>() {
         // (ND) unconditionally: this kernel initialises the scales, the old values are irrelevant
         assert!(pos_fin(new_std[i]), "C08.2 ND(grad): new std finite and > 0");
         assert!(pos_fin(new_inv[i]), "C08.2 ND(grad): new inv_std finite and > 0");
-        // (FORM/FILL)
-        let est = g[i].abs().clamp(CLAMP.0, CLAMP.1).recip();
-        let v = if est.is_finite() { est } else { 1.0 };
-        assert!(new_std[i].to_bits() == v.sqrt().to_bits(), "C08.2 FORM(grad): std");
-        assert!(new_inv[i].to_bits() == v.recip().sqrt().to_bits(), "C08.2 FORM(grad): inv_std");
+        // (FILL)
         if g[i].is_nan() {
             assert!(new_std[i] == 1.0 && new_inv[i] == 1.0, "C08.2 FILL(grad): NaN gradient gives 1");
         }
